@@ -422,6 +422,11 @@ type instance struct {
 	draws2 []int // rows of the second source (values w<k>)
 	reqs   map[string]reqDef
 	rows   int
+	// cx=<k>:<ms> (round 6): the gun's context (GunDeps.Ctx) is cancelled <ms> ms after this instance's target has
+	// received request number k of the case (k = -1: before the first shot)
+	cancelAt    int
+	cancelDelay time.Duration
+	cancel      context.CancelFunc
 }
 
 func (in *instance) add(ev string) {
@@ -513,6 +518,9 @@ func (in *instance) ServeHTTP(w http.ResponseWriter, r *http.Request) {
 	k := in.ord
 	in.ord++
 	in.mu.Unlock()
+	if in.cancel != nil && k == in.cancelAt {
+		time.AfterFunc(in.cancelDelay, in.cancel)
+	}
 
 	code := "k"
 	if k < len(in.oracle) && in.oracle[k] != "" {
@@ -641,8 +649,22 @@ func runGun(kv map[string]string) (obs string) {
 		guns := make([]core.Gun, nInst)
 		ctx, cancel := context.WithCancel(context.Background())
 		defer cancel()
+		cxAt, cxDelay, cxOn := -2, time.Duration(0), false
+		if f := strings.SplitN(kv["cx"], ":", 2); len(f) == 2 {
+			if a, err1 := strconv.Atoi(f[0]); err1 == nil {
+				if d, err2 := strconv.Atoi(f[1]); err2 == nil {
+					cxAt, cxDelay, cxOn = a, time.Duration(d)*time.Millisecond, true
+				}
+			}
+		}
+		if cxOn && cxAt < 0 {
+			cancel() // the context is done before the first shot
+		}
 		for i := range insts {
-			in := &instance{idx: i, reqs: reqs, rows: rows}
+			in := &instance{idx: i, reqs: reqs, rows: rows, cancelAt: cxAt, cancelDelay: cxDelay}
+			if cxOn && cxAt >= 0 {
+				in.cancel = cancel
+			}
 			if i < len(orc) {
 				in.oracle = splitNE(orc[i], ",")
 			}
